@@ -17,7 +17,9 @@ CLAUSES = (
     'batch is queued before the jobs-submit command for that batch is put to '
     'the process pool, each task enters at most one submit command '
     '(waiting_on_job_prep is consumed); on restart all tasks are polled '
-    'before the main loop starts; respawn decisions consult the DB history. '
+    'before the main loop starts; respawn decisions consult the DB history; '
+    'nothing but the batch\'s own commit ends a DAO transaction (no inner / '
+    'implicit / auto commit). '
     'Not decided: behaviour at every kill point (needs fault injection); '
     'atomicity of each flush is C21.')
 
@@ -25,6 +27,11 @@ TP = 'task_pool'
 
 
 def check(c):
+    # a crash in the middle of a batch leaves the previous committed state:
+    # nothing but the batch's own commit ends a transaction (rules of C21)
+    from rules.C21 import single_transaction_rules
+    single_transaction_rules(c, 'C20.atomic-batch', 'C20.atomic-batch',
+                             'C20.atomic-batch')
     rm = c.func(TP, 'TaskPool.remove')
     dels = [s for s in c.stores(rm, 'active_tasks')
             if s.kind == 'del' and s.depth == 2]
@@ -220,6 +227,12 @@ def _enclosing_try(c, n):
 
 
 VARIANTS = [
+    ('statement-level-commit', 'cylc/flow/rundb.py',
+     '''            self.connect()
+            self.conn.executemany(stmt, stmt_args_list)''',
+     '''            with self.connect() as conn:
+                conn.executemany(stmt, stmt_args_list)''',
+     'C20.atomic-batch'),
     ('remove-no-flush', 'cylc/flow/task_pool.py',
      '''            # ensure this task is written to the DB before moving on
             # https://github.com/cylc/cylc-flow/issues/6315
